@@ -313,7 +313,7 @@ impl Child {
                     return true;
                 }
             }
-            if t0.elapsed() > Duration::from_secs(20) {
+            if t0.elapsed() > Duration::from_secs(60) {
                 return false;
             }
             std::thread::sleep(Duration::from_millis(5));
